@@ -4264,6 +4264,7 @@ class DecAffine(Affine):
         """
 
         event_adapt = self.event_adapt
+        no_expectation(self, x, z)
 
         if isinstance(x, (DecVar, DecVarSub)):
             if x.to_affine().size > 1:
@@ -4574,6 +4575,19 @@ class DecAffine(Affine):
                 return values[0]
 
 
+def no_expectation(*exprs):
+    """
+    The per-scenario compilation of convex functions has no notion of
+    expectations: E(...) inside or added to a convex function would be
+    dropped silently.
+    """
+
+    for expr in exprs:
+        if getattr(expr, 'ctype', 'R') == 'E':
+            raise TypeError('Convex functions cannot be combined with '
+                            'expectation expressions.')
+
+
 class DecConvex(Convex):
     """
     The DecConvex class creates an object of convex functions
@@ -4582,6 +4596,7 @@ class DecConvex(Convex):
 
     def __init__(self, convex, event_adapt):
 
+        no_expectation(convex.affine_in, convex.affine_out)
         super().__init__(convex.affine_in, convex.affine_out,
                          convex.xtype, convex.sign, convex.multiplier,
                          params=convex.params)
@@ -4798,6 +4813,7 @@ class DecPerspConvex(PerspConvex):
 
     def __init__(self, convex, event_adapt):
 
+        no_expectation(convex.affine_in, convex.affine_scale, convex.affine_out)
         super().__init__(convex.affine_in, convex.affine_scale, convex.affine_out,
                          convex.xtype, convex.sign, convex.multiplier)
         self.event_adapt = event_adapt
